@@ -23,11 +23,26 @@ class Org(models.Model):
         app_label = "djapp"
 
 
+class PostInfo(models.Model):
+    tag = models.CharField(max_length=20, null=True)
+
+    class Meta:
+        app_label = "djapp"
+
+
+class AuthorInfo(models.Model):
+    tag = models.CharField(max_length=20, null=True)
+
+    class Meta:
+        app_label = "djapp"
+
+
 class Author(models.Model):
     name = models.TextField(null=True)
     age = models.IntegerField(null=True)
     rank = models.IntegerField(default=1)
     org = models.ForeignKey(Org, null=True, on_delete=models.CASCADE, related_name="authors")
+    info = models.ForeignKey(AuthorInfo, null=True, on_delete=models.CASCADE, related_name="+")
 
     class Meta:
         app_label = "djapp"
@@ -37,6 +52,7 @@ class Post(models.Model):
     title = models.TextField(null=True)
     n = models.IntegerField(null=True)
     author = models.ForeignKey(Author, null=True, on_delete=models.CASCADE, related_name="posts")
+    info = models.ForeignKey(PostInfo, null=True, on_delete=models.CASCADE, related_name="+")
     authors = models.ManyToManyField(Author, related_name="edited")  # the editors; shares its name with Org.authors
 
     class Meta:
